@@ -11,8 +11,10 @@ import (
 	"github.com/nspcc-dev/neo-go/pkg/core/transaction"
 	"github.com/nspcc-dev/neo-go/pkg/crypto/keys"
 	"github.com/nspcc-dev/neo-go/pkg/io"
+	"github.com/nspcc-dev/neo-go/pkg/smartcontract"
 	"github.com/nspcc-dev/neo-go/pkg/smartcontract/scparser"
 	"github.com/nspcc-dev/neo-go/pkg/util"
+	"github.com/nspcc-dev/neo-go/pkg/vm/opcode"
 	"pgregory.net/rapid"
 
 	"verif/sim"
@@ -88,8 +90,9 @@ func drawC06(rt *rapid.T, p *Plan, tier string) *Plan {
 			X:      rapid.IntRange(0, 63).Draw(rt, "cx"),
 		})
 	}
-	p.Election = max(0, rapid.IntRange(0, 6).Draw(rt, "election")-3)
+	p.Election = drawElection(rt)
 	p.HeadersFirst = rapid.Bool().Draw(rt, "hdrfirst")
+	p.KnownHeader = rapid.Bool().Draw(rt, "knownhdr")
 	p.Tape = drawTape(rt, 128)
 	return p
 }
@@ -379,6 +382,11 @@ func (r *run) runC06() {
 				return
 			}
 		}
+		if !r.c06Delivered && r.plan.KnownHeader && prev != nil && r.tape.Chance(1, 2) {
+			if r.knownHeaderDelivery(V, b, prev) {
+				return
+			}
+		}
 		if r.c06Delivered {
 			prev = b
 			continue
@@ -443,6 +451,104 @@ func (r *run) headersFirstAttack(V *Node) {
 	if V.BC.BlockHeight() > bn.Index {
 		r.violate(sim.Violatef("rejected-block-changed-tip", "", "height moved to %d although block %d was rejected", V.BC.BlockHeight(), bn1.Index))
 	}
+}
+
+// signSubset builds the invocation script of an m-of-n witness from the signatures of the keys other than pubs[skip]
+// (pubs sorted): another valid witness of the same block, as another consensus node would assemble it.
+func (r *run) signSubset(b *block.Block, pubs keys.PublicKeys, m, skip int) []byte {
+	pubs = pubs.Copy()
+	sort.Sort(pubs)
+	var inv []byte
+	n := 0
+	for i, p := range pubs {
+		if i == skip || n == m {
+			continue
+		}
+		pk, ok := r.prod.kr.byPub[p.StringCompressed()]
+		if !ok {
+			return nil
+		}
+		sig := pk.SignHashable(uint32(r.P.BC.GetConfig().Magic), b)
+		inv = append(inv, byte(opcode.PUSHDATA1), byte(len(sig)))
+		inv = append(inv, sig...)
+		n++
+	}
+	if n != m {
+		return nil
+	}
+	return inv
+}
+
+// knownHeaderDelivery: the genuine header of b is recorded ahead of the block (AddHeaders). Then (1) when b hands the
+// chain over to other validators, a copy of b witnessed by the validators b itself designates - they have no authority
+// over b - must be refused without any change; (2) b witnessed by another valid subset of the validators designated
+// by the previous block (what another consensus node assembles) is a valid extension and must be accepted.
+// Returns true when the run must stop.
+func (r *run) knownHeaderDelivery(V *Node, b, prev *block.Block) bool {
+	srih := r.plan.Proto.StateRootInHeader
+	m, pubsB, ok := scparser.ParseMultiSigContract(b.Script.VerificationScript)
+	if !ok || len(pubsB) <= m {
+		return false
+	}
+	var pubs keys.PublicKeys
+	for _, pb := range pubsB {
+		pk, err := keys.NewPublicKeyFromBytes(pb, elliptic.P256())
+		if err != nil {
+			return false
+		}
+		pubs = append(pubs, pk)
+	}
+	g, err := decodeBlock(r.raw[b.Index], srih)
+	if err != nil {
+		sim.Harnessf("re-decode: %v", err)
+	}
+	if herr := V.BC.AddHeaders(&g.Header); herr != nil {
+		r.violate(sim.Violatef("valid-header-rejected", "", "AddHeaders refused the genuine header %d: %v", b.Index, herr))
+		return true
+	}
+	sim.Wait()
+	r.out.Faults["header_known_before_block"]++
+	h, tip := V.BC.BlockHeight(), V.BC.CurrentBlockHash()
+	if b.NextConsensus != prev.NextConsensus {
+		// (1) witnessed by the validators of the NEXT block
+		if next, nerr := r.P.BC.GetNextBlockValidators(); nerr == nil {
+			if ms, merr := r.prod.kr.multiSigner(next, smartcontract.GetDefaultHonestNodeCount(len(next))); merr == nil {
+				c, _ := decodeBlock(r.raw[b.Index], srih)
+				c.Script.VerificationScript = ms.Script()
+				c2, _ := decodeBlock(encodeBlock(c), srih)
+				c.Script.InvocationScript = ms.SignHashable(uint32(r.P.BC.GetConfig().Magic), c2)
+				e := V.AddBlockBytes(encodeBlock(c))
+				sim.Wait()
+				r.out.Faults["handover_block_signed_by_next_validators"]++
+				r.log.Addf("known header %d, block witnessed by the validators it designates -> refused=%v", b.Index, e != nil)
+				if e == nil || V.BC.BlockHeight() != h || V.BC.CurrentBlockHash() != tip {
+					r.violate(sim.Violatef("corrupted-block-accepted", "corrupted-block-accepted/witness-of-next-validators", "block %d (header already known) witnessed by the validators it designates for block %d instead of those designated by block %d was accepted (err=%v, height %d->%d)", b.Index, b.Index+1, prev.Index, e, h, V.BC.BlockHeight()))
+					return true
+				}
+			}
+		}
+	}
+	// (2) another valid witness
+	alt, _ := decodeBlock(r.raw[b.Index], srih)
+	inv := r.signSubset(alt, pubs, m, int(r.tape.Choose(m)))
+	if inv == nil || bytes.Equal(inv, b.Script.InvocationScript) {
+		return false
+	}
+	alt.Script.InvocationScript = inv
+	e := V.AddBlockBytes(encodeBlock(alt))
+	sim.Wait()
+	r.out.Probes["known_header_alt_witness_delivered"]++
+	if b.NextConsensus != prev.NextConsensus {
+		r.out.Probes["known_header_alt_witness_at_handover"]++
+	}
+	r.log.Addf("known header %d, block delivered with another valid witness -> %v", b.Index, e == nil)
+	if e != nil {
+		r.violate(sim.Violatef("valid-block-rejected", "valid-block-rejected/other-witness-after-header", "block %d, correctly witnessed by another subset of the validators designated by block %d, was refused after its header had been recorded: %v", b.Index, prev.Index, e))
+		return true
+	}
+	r.compare(V, b.Index, "after-known-header-block")
+	r.c06Delivered = true
+	return r.fail != nil
 }
 
 // attack delivers one corrupted variant of b and checks that nothing changed. Returns true when the run must stop.
